@@ -151,17 +151,150 @@ class _Sub(ast.NodeTransformer):
         return n
 
 
+_RECORDS: T.Dict[T.Tuple[int, str], T.Optional[T.List[str]]] = {}
+
+
+def record_fields(module: ast.Module, name: str) -> T.Optional[T.List[str]]:
+    """Field names (declaration order) of a module-level NamedTuple / dataclass `name`; None if it is not one or
+    defines its own __init__/__new__."""
+    key = (id(module), name)
+    if key not in _RECORDS:
+        out: T.Optional[T.List[str]] = None
+        for st in module.body:
+            if isinstance(st, ast.ClassDef) and st.name == name:
+                is_nt = any((attr_chain(b) or '').split('.')[-1] == 'NamedTuple' for b in st.bases)
+                is_dc = any((attr_chain(d.func if isinstance(d, ast.Call) else d) or '').split('.')[-1] == 'dataclass' for d in st.decorator_list)
+                if (is_nt or is_dc) and not any(isinstance(m, ast.FunctionDef) and m.name in ('__init__', '__new__', '__post_init__') for m in st.body):
+                    out = [m.target.id for m in st.body if isinstance(m, ast.AnnAssign) and isinstance(m.target, ast.Name)]
+            elif isinstance(st, ast.Assign) and len(st.targets) == 1 and isinstance(st.targets[0], ast.Name) and st.targets[0].id == name \
+                    and isinstance(st.value, ast.Call) and (attr_chain(st.value.func) or '').split('.')[-1] in ('namedtuple', 'NamedTuple') and len(st.value.args) == 2:
+                f = st.value.args[1]
+                if isinstance(f, (ast.List, ast.Tuple)):
+                    names = [(e.value if isinstance(e, ast.Constant) else e.elts[0].value if isinstance(e, ast.Tuple) and e.elts and isinstance(e.elts[0], ast.Constant) else None) for e in f.elts]
+                    out = names if all(isinstance(x, str) for x in names) else None      # type: ignore[assignment]
+                elif isinstance(f, ast.Constant) and isinstance(f.value, str):
+                    out = f.value.replace(',', ' ').split()
+        _RECORDS[key] = out
+    return _RECORDS[key]
+
+
+LITMATCH = '__literal_match__'      # marker for "the match object of a literal alternative": __literal_match__('>=')
+
+
+def _litmatch(e: ast.AST) -> T.Optional[str]:
+    if isinstance(e, ast.Call) and isinstance(e.func, ast.Name) and e.func.id == LITMATCH and len(e.args) == 1 and isinstance(e.args[0], ast.Constant):
+        return e.args[0].value
+    return None
+
+
+_OPFUN = {'lt': ast.Lt, 'le': ast.LtE, 'gt': ast.Gt, 'ge': ast.GtE, 'eq': ast.Eq, 'ne': ast.NotEq, 'is_': ast.Is, 'is_not': ast.IsNot}
+
+
 class _FoldLen(ast.NodeTransformer):
-    """Constant folding (policy form a): `len('>=')` -> 2, `len((a, b))` -> 2."""
+    """Constant folding and operator-function normal form (policy form a):
+    `len('>=')` -> 2; `operator.gt(a, b)` -> `a > b`; `operator.not_(a)` -> `not a`; a comparison of two literals
+    (`'>=' is None`) -> its truth; `T[k]` / `T.get(k)` on a constant dict with a literal key -> the entry."""
+
+    def __init__(self, module: T.Optional[ast.Module] = None, local: T.Optional[T.Set[str]] = None):
+        self.module, self.local = module, local or set()
+
+    def table(self, e: ast.AST) -> T.Optional[ast.Dict]:
+        if isinstance(e, ast.Dict):
+            return e
+        if isinstance(e, ast.Name) and self.module is not None and e.id not in self.local:
+            from .c19_fold import is_constant_name
+            v = is_constant_name(self.module, e.id)
+            if isinstance(v, ast.Dict):
+                return v
+        return None
+
+    def lookup(self, d: ast.Dict, key: ast.AST, default: T.Optional[ast.AST]) -> T.Optional[ast.AST]:
+        if not isinstance(key, ast.Constant) or not all(isinstance(k, ast.Constant) for k in d.keys):
+            return None
+        for k, v in zip(d.keys, d.values):
+            if type(k.value) is type(key.value) and k.value == key.value:      # type: ignore[union-attr]
+                return copy.deepcopy(v)
+        return copy.deepcopy(default)
+
+    def visit_Attribute(self, n: ast.Attribute) -> ast.AST:
+        self.generic_visit(n)
+        # `Rec('>=', operator.ge).text` -> '>='   (Rec: a NamedTuple / dataclass of the module; fields in declaration order)
+        if isinstance(n.ctx, ast.Load) and isinstance(n.value, ast.Call) and isinstance(n.value.func, ast.Name) and self.module is not None:
+            fields = record_fields(self.module, n.value.func.id)
+            if fields is not None and n.attr in fields and not any(isinstance(a, ast.Starred) for a in n.value.args) \
+                    and all(k.arg is not None for k in n.value.keywords):
+                i = fields.index(n.attr)
+                if i < len(n.value.args):
+                    return copy.deepcopy(n.value.args[i])
+                for k in n.value.keywords:
+                    if k.arg == n.attr:
+                        return copy.deepcopy(k.value)
+        return n
+
+    def visit_Subscript(self, n: ast.Subscript) -> ast.AST:
+        self.generic_visit(n)
+        if isinstance(n.ctx, ast.Load) and _litmatch(n.value) is not None and isinstance(n.slice, ast.Constant) and n.slice.value == 0:
+            return ast.copy_location(ast.Constant(value=_litmatch(n.value)), n)
+        if isinstance(n.ctx, ast.Load):
+            d = self.table(n.value)
+            if d is not None:
+                v = self.lookup(d, n.slice, None)
+                if v is not None:
+                    return v
+        return n
+
+    def visit_UnaryOp(self, n: ast.UnaryOp) -> ast.AST:
+        self.generic_visit(n)
+        if isinstance(n.op, ast.Not) and isinstance(n.operand, ast.Constant) and isinstance(n.operand.value, bool):
+            return ast.copy_location(ast.Constant(value=not n.operand.value), n)
+        if isinstance(n.op, ast.Not) and _litmatch(n.operand) is not None:
+            return ast.copy_location(ast.Constant(value=False), n)
+        return n
+
+    def visit_Compare(self, n: ast.Compare) -> ast.AST:
+        self.generic_visit(n)
+        if len(n.ops) == 1 and isinstance(n.ops[0], (ast.Is, ast.IsNot)) and _litmatch(n.left) is not None \
+                and isinstance(n.comparators[0], ast.Constant) and n.comparators[0].value is None:
+            return ast.copy_location(ast.Constant(value=isinstance(n.ops[0], ast.IsNot)), n)       # a match object is not None
+        if len(n.ops) == 1 and isinstance(n.left, ast.Constant) and isinstance(n.comparators[0], ast.Constant):
+            a, b, op = n.left.value, n.comparators[0].value, n.ops[0]
+            if isinstance(op, (ast.Is, ast.IsNot)) and (a is None or b is None):
+                return ast.copy_location(ast.Constant(value=(a is b) == isinstance(op, ast.Is)), n)
+            if isinstance(op, (ast.Eq, ast.NotEq)) and type(a) is type(b):
+                return ast.copy_location(ast.Constant(value=(a == b) == isinstance(op, ast.Eq)), n)
+        return n
 
     def visit_Call(self, n: ast.Call) -> ast.AST:
         self.generic_visit(n)
+        if isinstance(n.func, ast.Attribute) and _litmatch(n.func.value) is not None and not n.keywords \
+                and (not n.args or (len(n.args) == 1 and isinstance(n.args[0], ast.Constant) and n.args[0].value == 0)):
+            lit = _litmatch(n.func.value)
+            if n.func.attr == 'group':
+                return ast.copy_location(ast.Constant(value=lit), n)
+            if n.func.attr == 'end':
+                return ast.copy_location(ast.Constant(value=len(lit)), n)       # type: ignore[arg-type]
+            if n.func.attr == 'start':
+                return ast.copy_location(ast.Constant(value=0), n)
         if isinstance(n.func, ast.Name) and n.func.id == 'len' and len(n.args) == 1 and not n.keywords:
             a = n.args[0]
             if isinstance(a, ast.Constant) and isinstance(a.value, (str, bytes)):
                 return ast.copy_location(ast.Constant(value=len(a.value)), n)
             if isinstance(a, (ast.Tuple, ast.List)) and not any(isinstance(x, ast.Starred) for x in a.elts):
                 return ast.copy_location(ast.Constant(value=len(a.elts)), n)
+        if isinstance(n.func, ast.Attribute) and isinstance(n.func.value, ast.Name) and n.func.value.id == 'operator' and not n.keywords \
+                and not any(isinstance(x, ast.Starred) for x in n.args):
+            if n.func.attr in _OPFUN and len(n.args) == 2:
+                return ast.copy_location(ast.Compare(left=n.args[0], ops=[_OPFUN[n.func.attr]()], comparators=[n.args[1]]), n)
+            if n.func.attr == 'not_' and len(n.args) == 1:
+                return ast.copy_location(ast.UnaryOp(op=ast.Not(), operand=n.args[0]), n)
+            if n.func.attr == 'contains' and len(n.args) == 2:
+                return ast.copy_location(ast.Compare(left=n.args[1], ops=[ast.In()], comparators=[n.args[0]]), n)
+        if isinstance(n.func, ast.Attribute) and n.func.attr == 'get' and len(n.args) in (1, 2) and not n.keywords:
+            d = self.table(n.func.value)
+            if d is not None:
+                v = self.lookup(d, n.args[0], n.args[1] if len(n.args) == 2 else ast.Constant(value=None))
+                if v is not None:
+                    return v
         return n
 
 
@@ -289,7 +422,7 @@ class Normaliser:
             for n in ast.walk(module):
                 if isinstance(n, (ast.FunctionDef, ast.AsyncFunctionDef)):
                     self.callees.setdefault(n.name, []).append(n)
-        self.pure = set(INLINE_CALLS) | set(calls)
+        self.pure = set(INLINE_CALLS) | set(calls) | {LITMATCH}
         self.nomut = self.pure | NOMUT_CALLS
         self.budget = budget
         self.dropped: T.Set[str] = set()
@@ -311,13 +444,15 @@ class Normaliser:
         out = _Sub(st, shadow).visit(copy.deepcopy(e))
         if self.module is not None:
             out = _FoldConst(self.module, self.locals | shadow | set(st.stale)).visit(out)
-        return _FoldLen().visit(out)
+        return _FoldLen(self.module, self.locals | shadow).visit(out)
 
     def substitutable(self, v: ast.AST) -> bool:
         for n in ast.walk(v):
             if not isinstance(n, _PURE_NODES):
                 return False
             if isinstance(n, ast.Call) and _callee(n) not in self.pure:
+                if isinstance(n.func, ast.Name) and self.module is not None and n.func.id not in self.locals and record_fields(self.module, n.func.id) is not None:
+                    continue        # a NamedTuple / dataclass record built from pure parts is a pure value
                 return False
         return True
 
@@ -384,6 +519,10 @@ class Normaliser:
             if isinstance(s, ast.If):
                 rest = stmts[i + 1:]
                 test = self.expr(s.test, st)
+                if _litmatch(test) is not None:
+                    test = ast.Constant(value=True)
+                if isinstance(test, ast.Constant) and (isinstance(test.value, bool) or test.value is None):
+                    return out + self.block(list(s.body if test.value else s.orelse) + rest, st)     # decided by folding
                 self.call_kills(test, st)
                 body = self.block(list(s.body) + rest, st.copy())
                 orelse = self.block(list(s.orelse) + rest, st.copy())
@@ -430,6 +569,21 @@ class Normaliser:
                 return [loc(ast.Assign(targets=[ast.Name(id=t.id, ctx=ast.Store())],       # type: ignore[attr-defined]
                                        value=ast.Call(func=ast.Attribute(value=ast.Name(id=m, ctx=ast.Load()), attr='group', ctx=ast.Load()), args=[ast.Constant(value=k + 1)], keywords=[])))
                         for k, t in enumerate(s.targets[0].elts)]
+        # B5/B3  `m = RX.match(s)` with RX an alternation of plain literals  ->  a chain of `s.startswith(lit)` tests that binds
+        # m to the matched literal (alternatives are tried in order) or to None
+        if isinstance(s, (ast.Assign, ast.AnnAssign)) and getattr(s, 'value', None) is not None:
+            tg = s.targets if isinstance(s, ast.Assign) else [s.target]
+            if len(tg) == 1 and isinstance(tg[0], ast.Name):
+                lm = self.literal_match(s.value)
+                if lm is not None:
+                    subject, alts = lm
+                    node: T.List[ast.stmt] = [loc(ast.Assign(targets=[ast.Name(id=tg[0].id, ctx=ast.Store())], value=ast.Constant(value=None)))]
+                    for a in reversed(alts):
+                        test = ast.Call(func=ast.Attribute(value=copy.deepcopy(subject), attr='startswith', ctx=ast.Load()), args=[ast.Constant(value=a)], keywords=[])
+                        bind = loc(ast.Assign(targets=[ast.Name(id=tg[0].id, ctx=ast.Store())],
+                                              value=ast.Call(func=ast.Name(id=LITMATCH, ctx=ast.Load()), args=[ast.Constant(value=a)], keywords=[])))
+                        node = [loc(ast.If(test=test, body=[bind], orelse=node))]
+                    return node
         # A7  `try: x = T[k]` / `except KeyError: x = D`  ->  `x = T.get(k, D)`
         if isinstance(s, ast.Try) and len(s.body) == 1 and len(s.handlers) == 1 and not s.orelse and not s.finalbody:
             b, h = s.body[0], s.handlers[0]
@@ -444,6 +598,25 @@ class Normaliser:
             if z is not None:
                 return [z]
         return None
+
+    def literal_match(self, v: ast.AST) -> T.Optional[T.Tuple[ast.AST, T.List[str]]]:
+        """`RX.match(s)` / `re.match('a|b', s)` where the pattern is a plain alternation of literals -> (s, [literals])."""
+        pat: T.Optional[ast.AST] = None
+        subject: T.Optional[ast.AST] = None
+        if isinstance(v, ast.Call) and isinstance(v.func, ast.Attribute) and v.func.attr == 'match' and not v.keywords:
+            if attr_chain(v.func.value) == 're' and len(v.args) == 2:
+                pat, subject = v.args[0], v.args[1]
+            elif len(v.args) == 1 and isinstance(v.func.value, ast.Name) and self.module is not None and v.func.value.id not in self.locals:
+                from .c19_fold import is_constant_name
+                c = is_constant_name(self.module, v.func.value.id)
+                if isinstance(c, ast.Call) and attr_chain(c.func) == 're.compile' and len(c.args) == 1 and not c.keywords:
+                    pat, subject = c.args[0], v.args[0]
+        if not (isinstance(pat, ast.Constant) and isinstance(pat.value, str)) or subject is None:
+            return None
+        if any(ch in pat.value for ch in '\\.^$*+?{}[]()') or not pat.value:
+            return None
+        alts = pat.value.split('|')
+        return (subject, alts) if all(alts) else None
 
     def local_table(self, name: str) -> T.Optional[ast.AST]:
         """A local bound exactly once to a tuple/list/dict display and only ever read (iterated, indexed, `.get`/`.items`,
@@ -841,7 +1014,8 @@ class _ReplaceNode(ast.NodeTransformer):
 
 
 def inline_helpers(fn: FuncNode, helpers: T.Dict[str, FuncNode], *, calls: T.Iterable[str] = (),
-                   functions: T.Optional[T.Dict[str, FuncNode]] = None, depth: int = 3) -> FuncNode:
+                   functions: T.Optional[T.Dict[str, FuncNode]] = None, depth: int = 3,
+                   partials: T.Optional[T.Dict[str, T.Tuple[FuncNode, T.List[ast.expr], T.List[ast.keyword]]]] = None) -> FuncNode:
     """A copy of `fn` in which calls of *private* helpers are replaced by the helper's body (E1/E2/E5 of the
     refactoring catalogue: extract method, closure/method/module-function, phase split):
 
@@ -854,9 +1028,12 @@ def inline_helpers(fn: FuncNode, helpers: T.Dict[str, FuncNode], *, calls: T.Ite
     inlined faithfully (returns from inside a loop, rebinds a parameter, *args, recursion) is left as a call."""
     from ..tables import _Subst
     functions = functions or {}
+    partials = partials or {}
     serial = [0]
 
     def callee_of(c: ast.Call) -> T.Optional[T.Tuple[FuncNode, T.Optional[ast.AST]]]:
+        if isinstance(c.func, ast.Name) and c.func.id in partials and partials[c.func.id][0] is not fn:
+            return partials[c.func.id][0], None
         if isinstance(c.func, ast.Attribute) and c.func.attr in helpers and helpers[c.func.attr] is not fn and attr_chain(c.func.value) is not None:
             return helpers[c.func.attr], c.func.value
         if isinstance(c.func, ast.Name) and c.func.id in functions and functions[c.func.id] is not fn:
@@ -866,11 +1043,19 @@ def inline_helpers(fn: FuncNode, helpers: T.Dict[str, FuncNode], *, calls: T.Ite
     def instantiate(c: ast.Call) -> T.Optional[T.List[ast.stmt]]:
         """The normalised body of the callee with parameters bound and locals renamed (returns still in place)."""
         callee, recv = callee_of(c)      # type: ignore[misc]
+        if isinstance(c.func, ast.Name) and c.func.id in partials:
+            # `P = functools.partial(f, a, k=v)` ... `P(x)`  is  `f(a, x, k=v)`
+            _f, pargs, pkw = partials[c.func.id]
+            c = ast.Call(func=ast.Name(id=_f.name, ctx=ast.Load()), args=[copy.deepcopy(x) for x in pargs] + list(c.args),
+                         keywords=[copy.deepcopy(k) for k in pkw if k.arg not in {q.arg for q in c.keywords}] + list(c.keywords))
         a = callee.args
         if a.vararg or a.kwarg or any(isinstance(x, ast.Starred) for x in c.args) or any(k.arg is None for k in c.keywords):
             return None
-        if callee.decorator_list:
-            return None          # staticmethod/classmethod/property/cache wrappers: not read
+        static = [d for d in callee.decorator_list if isinstance(d, ast.Name) and d.id == 'staticmethod']
+        if len(static) != len(callee.decorator_list):
+            return None          # classmethod/property/cache wrappers: not read
+        if static:
+            recv = None          # `self._h(a)` / `Cls._h(a)` on a staticmethod: no receiver is bound
         params = [p.arg for p in a.posonlyargs + a.args]
         actual: T.Dict[str, ast.AST] = {}
         pos = list(c.args)
@@ -929,9 +1114,10 @@ def inline_helpers(fn: FuncNode, helpers: T.Dict[str, FuncNode], *, calls: T.Ite
         elif isinstance(st, (ast.Assign, ast.AnnAssign, ast.AugAssign, ast.Return)) and getattr(st, 'value', None) is not None:
             holder = [st.value]       # type: ignore[list-item]
         cands = [c for h in holder for c in walk_no_nested(h) if isinstance(c, ast.Call) and callee_of(c) is not None]
-        if len(cands) != 1:
+        if not cands:
             return None
-        c = cands[0]
+        # several helper calls in one statement: the first one (source order) now, the others when the result is processed again
+        c = min(cands, key=lambda x: (getattr(x, 'lineno', 0), getattr(x, 'col_offset', 0)))
         body = instantiate(c)
         if body is None:
             return None
@@ -941,10 +1127,60 @@ def inline_helpers(fn: FuncNode, helpers: T.Dict[str, FuncNode], *, calls: T.Ite
             leaf = lambda e: [ast.copy_location(_replace_in_copy(st, c, e if e is not None else ast.Constant(value=None)), st)]   # noqa: E731
         return None if body is None else _tail_map(body, leaf)
 
+    def terminal(stmts: T.List[ast.stmt]) -> bool:
+        """Every path through the statement list ends in return/raise."""
+        if not stmts:
+            return False
+        last = stmts[-1]
+        if isinstance(last, (ast.Return, ast.Raise)):
+            return True
+        if isinstance(last, ast.If):
+            return terminal(last.body) and terminal(last.orelse)
+        return False
+
+    def expand_through(st: ast.stmt, rest: T.List[ast.stmt], level: int) -> T.Optional[T.List[ast.stmt]]:
+        """The helper returns from inside a loop (a search loop split off, E1/D2): when everything after the call in
+        the caller ends in return/raise on every path, each `return E` of the helper - wherever it stands - becomes
+        "the calling statement with E, then the rest of the caller"; the rest of the caller moves with it."""
+        if level > depth or not terminal(rest) or not isinstance(st, (ast.Assign, ast.AnnAssign, ast.Return, ast.Expr)):
+            return None
+        val = getattr(st, 'value', None)
+        if val is None:
+            return None
+        cands = [c for c in walk_no_nested(val) if isinstance(c, ast.Call) and callee_of(c) is not None]
+        if len(cands) != 1:
+            return None
+        c = cands[0]
+        body = instantiate(c)
+        if body is None:
+            return None
+
+        def cont(e: T.Optional[ast.AST]) -> T.List[ast.stmt]:
+            return [ast.copy_location(_replace_in_copy(st, c, e if e is not None else ast.Constant(value=None)), st)] + copy.deepcopy(rest)
+
+        class Rw(ast.NodeTransformer):
+            def visit_Return(self, n: ast.Return) -> T.Any:
+                return cont(n.value)
+
+            def visit_FunctionDef(self, n: ast.FunctionDef) -> ast.AST:
+                return n
+
+            def visit_Lambda(self, n: ast.Lambda) -> ast.AST:
+                return n
+        new = [Rw().visit(x) for x in body]
+        flat: T.List[ast.stmt] = []
+        for x in new:
+            flat.extend(x if isinstance(x, list) else [x])
+        return flat + cont(None)            # falling off the end of the helper returns None
+
     def conv(stmts: T.List[ast.stmt], level: int) -> T.List[ast.stmt]:
         out: T.List[ast.stmt] = []
-        for s in stmts:
+        for i, s in enumerate(stmts):
             ex = expand(s, level) if not isinstance(s, (ast.For, ast.While, ast.With, ast.Try, ast.FunctionDef, ast.ClassDef)) else None
+            if ex is None and not isinstance(s, (ast.If, ast.For, ast.While, ast.With, ast.Try, ast.FunctionDef, ast.ClassDef)):
+                et = expand_through(s, list(stmts[i + 1:]), level)
+                if et is not None:
+                    return out + conv(et, level + 1)
             if ex is not None:
                 out.extend(conv([ast.copy_location(x, s) if not hasattr(x, 'lineno') else x for x in ex], level + 1) or [ast.copy_location(ast.Pass(), s)])
                 continue
@@ -982,10 +1218,19 @@ def normal_form(fn: FuncNode, module: ast.Module, *, cls: T.Optional[str] = None
                         and m.name not in skip:
                     helpers[m.name] = m
     functions = {k: v for k, v in functions.items() if counts.get(k) == 1}
-    cur = normalise(inline_helpers(fn, helpers, calls=calls, functions=functions), calls=calls, module=module)
+    partials: T.Dict[str, T.Tuple[FuncNode, T.List[ast.expr], T.List[ast.keyword]]] = {}
+    from .c19_fold import is_constant_name
+    for st in module.body:
+        tgt = st.targets[0] if isinstance(st, ast.Assign) and len(st.targets) == 1 else st.target if isinstance(st, ast.AnnAssign) else None
+        v = getattr(st, 'value', None)
+        if isinstance(tgt, ast.Name) and isinstance(v, ast.Call) and (attr_chain(v.func) or '').split('.')[-1] == 'partial' and v.args \
+                and isinstance(v.args[0], ast.Name) and v.args[0].id in functions and not any(isinstance(x, ast.Starred) for x in v.args) \
+                and all(k.arg is not None for k in v.keywords) and tgt.id not in skip and is_constant_name(module, tgt.id) is not None:
+            partials[tgt.id] = (functions[v.args[0].id], list(v.args[1:]), list(v.keywords))
+    cur = normalise(inline_helpers(fn, helpers, calls=calls, functions=functions, partials=partials), calls=calls, module=module)
     for _ in range(3):
         # a helper selected through a local or a constant table becomes a plain call only after normalisation (A3/A4)
-        nxt = inline_helpers(cur, helpers, calls=calls, functions=functions)
+        nxt = inline_helpers(cur, helpers, calls=calls, functions=functions, partials=partials)
         if ast.dump(nxt) == ast.dump(cur):
             break
         cur = normalise(nxt, calls=calls, module=module)
